@@ -14,6 +14,10 @@ package main
 import (
 	"encoding/json"
 	"fmt"
+	"os"
+	"os/exec"
+	"sort"
+	"strconv"
 	"strings"
 	"sync"
 
@@ -228,10 +232,29 @@ func c03History(in, out string) error {
 			}
 		}
 		evals := 0
-		// phase A: alone, in order
+		// phase A: truly alone - every document in a fresh process of its own, so that state
+		// left behind in package variables by one document cannot reach another
+		self, _ := os.Executable()
 		for _, d := range docs {
-			for op := range d.run {
-				observe(d, op, 1, "alone")
+			cmd := exec.Command(self, "c03", "one", d.name, fmt.Sprint(ci))
+			cmd.Env = os.Environ()
+			outb, err := cmd.Output()
+			if err != nil {
+				return fmt.Errorf("fresh-process run of %s failed: %v", d.name, err)
+			}
+			var hs map[string]string
+			if err := json.Unmarshal(outb, &hs); err != nil {
+				return fmt.Errorf("fresh-process run of %s: %v", d.name, err)
+			}
+			ops := make([]string, 0, len(hs))
+			for op := range hs {
+				ops = append(ops, op)
+			}
+			sort.Strings(ops)
+			for _, op := range ops {
+				events = append(events, Event{"event": "Begin", "doc": d.name, "op": op, "g": 1},
+					Event{"event": "Observe", "doc": d.name, "op": op, "g": 1, "hash": hs[op], "phase": "alone-fresh-process"})
+				first[d.name+"|"+op] = hs[op]
 				evals++
 			}
 		}
@@ -277,8 +300,27 @@ func c03History(in, out string) error {
 	return writeResults(out, res)
 }
 
+// c03One: `driver c03 one <doc> <salt>` - run every operation of one document in this (fresh)
+// process and print op -> hash as JSON.
+func c03One(name string, salt int64) error {
+	for _, d := range historyDocs(salt) {
+		if d.name == name {
+			hs := map[string]string{}
+			for op, f := range d.run {
+				hs[op] = sha(f())
+			}
+			os.Stdout.Write(mustJSON(hs))
+			return nil
+		}
+	}
+	return fmt.Errorf("no document %s", name)
+}
+
 func c03(mode, in, out string) error {
 	switch mode {
+	case "one":
+		salt, _ := strconv.ParseInt(out, 10, 64)
+		return c03One(in, salt)
 	case "sched":
 		// one case at a time: the only concurrency is the scheduled one, so a
 		// shared-state defect shows up deterministically as a wrong result
